@@ -198,6 +198,21 @@ def _fil(wd, shard, ctx, res, only):
                     res.violation({"site": "Filterbank.fold", "symptom": "cube depends on the gulp"}, case, "")
                 else:
                     res.outcome("gulp_identity/ok")
+    # nbands larger than the channel count is clipped to nchans
+    if only is None and shard["P"] == PERIODS[2]:
+        res.evaluations += 1
+        case = {"shard": shard, "inner": [0.0, 5, 2, C + 3]}
+        ref = _reference(X, d, TSAMP, period, 0.0, 5, 2, C)
+        try:
+            cube = fil.fold(period, dm, accel=0.0, nbins=5, nints=2, nbands=C + 3, gulp=61, quiet=True, description="vf")
+            if ref is not None and not (ref[1] == 0).any():
+                want = (ref[0] / ref[1]).astype(np.float32)
+                if cube.data.shape != want.shape or not np.array_equal(cube.data, want):
+                    res.violation({"site": "Filterbank.fold", "symptom": "nbands > nchans is not folded as nbands = nchans"}, case, f"shape {cube.data.shape} vs {want.shape}")
+                else:
+                    res.outcome("filterbank/ok")
+        except Exception as e:  # noqa: BLE001
+            res.violation({"site": "Filterbank.fold", "symptom": f"raised {type(e).__name__} for nbands > nchans"}, case, repr(e))
     res.sample({"shard": {k: shard[k] for k in ("band", "dm", "P")}, "delays": d.tolist(), "inner": [0.0, 8, 2, 3, 7]}, cap=1)
 
 
